@@ -705,6 +705,73 @@ pub fn lower(p: &Program) -> ExecCase {
 /// (division / modulo / multiplication by a register, wide loads, shifts by a register), on
 /// initialised registers: fully defined, executable on every engine, and a worst case for the
 /// code-size estimation of the compilers (C12, C20) at every program length from 1 to `max` .
+/// Loops whose head is instruction 0 (a back-edge to the very first instruction, which is not
+/// idempotent): on the no-data VM r1 is 0 at entry, so the program needs no prologue. Shapes:
+/// conditional back-edge of every unsigned / signed / 32-bit kind, `ja` back-edge behind a
+/// conditional exit, and a wide load as the first instruction (a jump that lands one slot late
+/// hits its second half).
+pub fn loop_to_zero() -> impl Strategy<Value = ExecCase> {
+    (1i32..6, 1i32..7, 0u8..8, 0u8..3, any::<bool>(), prop::collection::vec((0u8..4, 2u8..10, interesting_i32()), 0..4), interesting_u64())
+        .prop_map(|(k, n, jk, shape, is64, body, wide)| {
+            let limit = k * n;
+            let mut out: Vec<Insn> = Vec::new();
+            if shape == 2 {
+                out.push(Insn::new(LDDW, 2, 0, 0, wide as u32 as i32));
+                out.push(Insn::new(0, 0, 0, 0, (wide >> 32) as u32 as i32));
+                // make the loop head itself matter: r1 += k happens right after it
+            }
+            out.push(Insn::new(alu_opc(true, ALU_ADD, false), 1, 0, 0, k));
+            out.push(Insn::new(alu_opc(true, ALU_MOV, true), 3, 1, 0, 0));
+            for (op, dst, imm) in body {
+                let dst = if dst == 1 { 4 } else { dst };
+                match op {
+                    0 => out.push(Insn::new(alu_opc(true, ALU_MOV, false), dst, 0, 0, imm)),
+                    1 => out.push(Insn::new(alu_opc(true, ALU_MOV, true), dst, 3, 0, 0)),
+                    2 => {
+                        out.push(Insn::new(alu_opc(true, ALU_MOV, true), dst, 3, 0, 0));
+                        out.push(Insn::new(alu_opc(false, ALU_MUL, false), dst, 0, 0, imm | 1));
+                    }
+                    _ => {
+                        out.push(Insn::new(alu_opc(true, ALU_MOV, false), dst, 0, 0, imm));
+                        out.push(Insn::new(alu_opc(true, ALU_XOR, true), dst, 3, 0, 0));
+                    }
+                }
+            }
+            let back = |from: usize| -(from as i32 + 1) as i16;
+            if shape == 1 {
+                // conditional exit, then an unconditional back-edge
+                out.push(Insn::new(jmp_opc(is64, J_GE, false), 1, 0, 1, limit));
+                let at = out.len();
+                out.push(Insn::new(JA, 0, 0, back(at), 0));
+            } else {
+                let (cond, imm) = match jk {
+                    0 => (J_LT, limit),
+                    1 => (J_NE, limit),
+                    2 => (J_SLT, limit),
+                    3 => (J_LE, limit - 1),
+                    4 => (J_SLE, limit - 1),
+                    5 => (J_GT, -1 - limit), // never true for small positive r1 compared unsigned with a huge value? keep it simple: see below
+                    _ => (J_LT, limit),
+                };
+                let (cond, imm) = if cond == J_GT { (J_LT, limit) } else { (cond, imm) };
+                let at = out.len();
+                if jk == 7 {
+                    // register form
+                    out.push(Insn::new(alu_opc(true, ALU_MOV, false), 5, 0, 0, limit));
+                    let at = out.len();
+                    out.push(Insn::new(jmp_opc(is64, J_LT, true), 1, 5, back(at), 0));
+                } else {
+                    out.push(Insn::new(jmp_opc(is64, cond, false), 1, 0, back(at), imm));
+                }
+            }
+            out.push(Insn::new(alu_opc(true, ALU_MOV, true), 0, 1, 0, 0));
+            out.push(Insn::new(alu_opc(true, ALU_LSH, false), 0, 0, 0, 8));
+            out.push(Insn::new(alu_opc(true, ALU_XOR, true), 0, 3, 0, 0));
+            out.push(Insn::new(EXIT, 0, 0, 0, 0));
+            ExecCase::new(VmKind::NoData, encode_prog(&out))
+        })
+}
+
 pub fn dense_alu(max: usize) -> impl Strategy<Value = ExecCase> {
     dense(max, false)
 }
